@@ -28,6 +28,7 @@ import seaborn as sns  # type: ignore[import]
 from ipywidgets import fixed, interact  # type: ignore[import]
 
 from black_it.calibrator import Calibrator
+from black_it.utils.json_pandas_checkpointing import load_samplers_id_table
 
 if TYPE_CHECKING:
     import os
@@ -45,11 +46,18 @@ def _get_samplers_id_table(saving_folder: str | os.PathLike) -> dict[str, int]:
     Returns:
         the id table of the samplers
     """
+    if (Path(saving_folder) / "calibration_params.json").exists():
+        samplers_id_table = load_samplers_id_table(saving_folder)
+        if samplers_id_table is not None:
+            return samplers_id_table
+
     output_file = Path(saving_folder) / "scheduler_pickled.pickle"
     with output_file.open("rb") as f:
         method_list = pickle.load(f)  # nosec B301
 
-    return Calibrator._construct_samplers_id_table(method_list)  # noqa: SLF001
+    # the checkpoint holds the scheduler, older ones hold the list of samplers
+    samplers = getattr(method_list, "samplers", method_list)
+    return Calibrator._construct_samplers_id_table(list(samplers))  # noqa: SLF001
 
 
 def _get_samplers_names(
